@@ -1,5 +1,6 @@
 import Uds.Lemmas.Safe
 import Uds.Props.C03
+import Uds.Props.C01
 /-
   C04 — any received bytes give a result or a documented exception, never a crash / hang.
   For every response interpreter and every client-side check: for *all* byte strings `d` the model either returns or
@@ -1009,5 +1010,132 @@ theorem call_documented (cfg : CallCfg) (st : ClientState) (e : Entry) (arr : Li
 
 example : (callInner { send := ⟨none, 1000, 5000, false⟩ } {} .testerPresent [⟨3, [0x7F, 0x3E]⟩]).inner =
     .exc .invalid (some (Response.fromPayload [0x7F, 0x3E])) := by decide
+
+/-! ### call level, every service family: `send_request` followed by the method's interpretation and checks -/
+
+/-- a request that has a payload also has one with the suppress bit forced (the client inside a suppress block) -/
+theorem payload_forced (req : Request) (s : Service) (hs : req.service = some s) (hu : s.useSubfn = true) (p : Bytes)
+    (hp : req.getPayload none = .ok p) : ∃ p', req.getPayload (some true) = .ok p' := by
+  unfold Request.getPayload at hp ⊢
+  simp only [hs, hu, if_true] at hp ⊢
+  cases hsf : req.subfunction with
+  | none => simp [hsf] at hp
+  | some sf0 =>
+    simp only [hsf, bind_ok, pure_ok] at hp ⊢
+    obtain ⟨a, ha, b, hb, _⟩ := hp
+    have hlt : (if req.spr then setBit7 sf0 else sf0) < 256 := by
+      unfold packB at hb
+      by_cases h : (if req.spr then setBit7 sf0 else sf0) < 256
+      · exact h
+      · simp [h] at hb
+    have hsf0 : sf0 < 256 := by
+      cases hspr : req.spr with
+      | false => simpa [hspr] using hlt
+      | true =>
+        rw [hspr] at hlt
+        simp only [if_true] at hlt
+        unfold setBit7 at hlt
+        exact Nat.lt_of_le_of_lt Nat.left_le_or hlt
+    have h7 : setBit7 sf0 < 256 := by unfold setBit7; exact Nat.or_lt_two_pow (n := 8) (by omega) (by decide)
+    obtain ⟨c, hc⟩ := packB_some h7
+    exact ⟨_, a, ha, c, hc, rfl⟩
+
+/-- `send_request` on any request that has a payload: whatever arrives, only documented outcomes are raised -/
+theorem send_documented' (cfg : SendCfg) (st : ClientState) (req : Request) (timeout : Option Nat) (arr : List Frame) (p : Bytes)
+    (hp : req.getPayload none = .ok p) (e : PyErr) (r : Option Response) (k : Option TimeoutKind)
+    (h : (sendRequest cfg st req timeout arr).outcome = .raised e r k) : e.documented = true := by
+  unfold sendRequest at h
+  cases hs : req.service with
+  | none => simp [Request.getPayload, hs, throw, throwThe, MonadExceptOf.throw] at hp
+  | some s =>
+    simp only [hs] at h
+    by_cases hu : (st.spr.enabled && s.useSubfn) = true
+    · obtain ⟨p1, hp1⟩ := payload_forced req s hs (by simp at hu; exact hu.2) p hp
+      simp only [hu, if_true, hp1] at h
+      split at h
+      · cases h
+      · exact waitLoop_documented _ _ _ _ _ _ _ _ _ _ _ _ h
+    · have hu' : (st.spr.enabled && s.useSubfn) = false := by simpa using hu
+      simp only [hu', Bool.false_eq_true, if_false, hp] at h
+      split at h
+      · cases h
+      · exact waitLoop_documented _ _ _ _ _ _ _ _ _ _ _ _ h
+
+/-- **any client method**: if its request has a payload and its interpretation + checks can only fail in documented ways, then for every
+    list of frames — any bytes, any number, any timing — the call returns or raises a documented outcome -/
+theorem callWith_documented {α : Type} (cfg : SendCfg) (st : ClientState) (req : Request) (post : Bytes → Py α) (arr : List Frame) (p : Bytes)
+    (hp : req.getPayload none = .ok p) (hpost : ∀ d, Safe (post d)) : (callWith cfg st req post arr).Documented := by
+  unfold callWith
+  cases ho : (sendRequest cfg st req none arr).outcome with
+  | none => simp [CallOut.Documented]
+  | raised e r k => simp only [CallOut.Documented]; exact send_documented' cfg st req none arr p hp e r k ho
+  | resp r =>
+    simp only []
+    cases hq : post r.data with
+    | ok v => simp [CallOut.Documented]
+    | error e => simp only [CallOut.Documented]; exact hpost r.data e hq
+
+/-! the families: the request is whatever the family's builder returned; the interpretation is the family's client-side check -/
+
+theorem rdbi_call_documented (cfg : SendCfg) (st : ClientState) (c : DidCfg) (tol : Bool) (dids : List Int) (req : Request) (arr : List Frame)
+    (h : rdbiMakeRequest (some c) dids = .ok req) :
+    (callWith cfg st req (rdbiClient c tol (dids.map Int.toNat)) arr).Documented :=
+  callWith_documented cfg st req _ arr _ (Uds.Props.C01.rdbi_frame_decodes (some c) dids req {} h).1 (fun d => rdbiClient_safe c tol _ d)
+
+theorem wdbi_call_documented (cfg : SendCfg) (st : ClientState) (c : DidCfg) (did : Int) (v : Bytes) (req : Request) (arr : List Frame)
+    (h : wdbiMakeRequest c did v = .ok req) :
+    (callWith cfg st req (wdbiClient did.toNat) arr).Documented :=
+  callWith_documented cfg st req _ arr _ (Uds.Props.C01.wdbi_frame_decodes c did v req {} h).1 (fun d => wdbiClient_safe _ d)
+
+theorem io_call_documented (cfg : SendCfg) (st : ClientState) (c : IoCfg) (tol : Bool) (did : Int) (cp : Option Int) (values : Option Bytes) (masks : Option MaskArg)
+    (req : Request) (arr : List Frame) (hv : ioCfgValid c) (h : ioMakeRequest c did cp values masks = .ok req) :
+    (callWith cfg st req (ioClient c did.toNat (cp.map Int.toNat) tol) arr).Documented := by
+  obtain ⟨e, m, _, _, hp, _⟩ := Uds.Props.C01.io_frame_decodes c did cp values masks req h
+  exact callWith_documented cfg st req _ arr _ hp (fun d => ioClient_safe c _ _ tol d hv)
+
+theorem rft_call_documented (cfg : SendCfg) (st : ClientState) (tol : Bool) (moop : Int) (path : Bytes) (dfi : Option Nat) (fs : Option FilesizeArg)
+    (req : Request) (arr : List Frame) (h : rftMakeRequest moop path dfi fs = .ok req) :
+    (callWith cfg st req (rftClient moop.toNat dfi tol) arr).Documented := by
+  obtain ⟨frame, x, f, hp, _⟩ := Uds.Props.C01.rft_frame_decodes moop path dfi fs req {} h
+  exact callWith_documented cfg st req _ arr _ hp (fun d => rftClient_safe _ _ tol d)
+
+theorem auth_call_documented (cfg : SendCfg) (st : ClientState) (a : AuthArgs) (req : Request) (arr : List Frame) (h : authMakeRequest a = .ok req) :
+    (callWith cfg st req (authClient a.task.toNat) arr).Documented := by
+  obtain ⟨data, hp, _⟩ := Uds.Props.C01.auth_frame_decodes a req {} h
+  exact callWith_documented cfg st req _ arr _ hp (fun d => authClient_safe _ d)
+
+theorem dtc_call_documented (cfg : SendCfg) (st : ClientState) (c : DtcCfg) (a : DtcArgs) (q : DtcReqCtx) (req : Request) (arr : List Frame)
+    (hv : DtcCfgValid c) (hq : ctxOk q) (hqs : q.sf = a.sf) (hsf : checkSubfunctionValid a.sf c.std = .ok ()) (hg : dtcReqGroup a.sf.toNat ≠ .other)
+    (h : dtcMakeRequest c.std a = .ok req) :
+    (callWith cfg st req (dtcClient c q) arr).Documented := by
+  obtain ⟨data, sev, _, hp, _⟩ := Uds.Props.C01.dtc_frame_decodes c.std a req {} h hg
+  exact callWith_documented cfg st req _ arr _ hp (fun d => dtcClient_safe c q d hv (by rw [hqs]; exact hsf) hq)
+
+theorem dddByDid_call_documented (cfg : SendCfg) (st : ClientState) (did : Int) (entries : List DddSrc) (strict : Bool) (req : Request) (arr : List Frame)
+    (h : dddByDidMakeRequest did entries = .ok req) :
+    (callWith cfg st req (dddClient 1 (some did.toNat) strict) arr).Documented := by
+  obtain ⟨frame, hp, _⟩ := Uds.Props.C01.dddByDid_frame_decodes did entries req {} h
+  exact callWith_documented cfg st req _ arr _ hp (fun d => dddClient_safe _ _ strict d)
+
+/-- the memory-addressed services: the request is built from a location whose address and size fit their widths (C14) -/
+theorem readMem_call_documented (cfg : SendCfg) (st : ClientState) (ml : MemLoc) (w : Bytes) (tol : Bool) (req : Request) (arr : List Frame)
+    (hw : ml.wire = .ok w) (h : readMemMakeRequest ml = .ok req) :
+    (callWith cfg st req (readMemClient ml.size.toNat tol) arr).Documented := by
+  have := Uds.Props.C14.readMem_frame ml w hw
+  rw [h] at this
+  exact callWith_documented cfg st req _ arr _ (by simpa [bind, Except.bind] using this) (fun d => readMemClient_safe _ tol d)
+
+theorem xfer_call_documented (cfg : SendCfg) (st : ClientState) (up : Bool) (ml : MemLoc) (w : Bytes) (dfi : Nat) (hd : dfi < 256) (req : Request) (arr : List Frame)
+    (hw : ml.wire = .ok w) (h : requestXferMakeRequest up ml dfi = .ok req) :
+    (callWith cfg st req xferInterpret arr).Documented := by
+  cases up with
+  | false =>
+    have := Uds.Props.C14.download_frame ml w dfi hd hw
+    rw [h] at this
+    exact callWith_documented cfg st req _ arr _ (by simpa [bind, Except.bind] using this) xfer_safe
+  | true =>
+    have := Uds.Props.C14.upload_frame ml w dfi hd hw
+    rw [h] at this
+    exact callWith_documented cfg st req _ arr _ (by simpa [bind, Except.bind] using this) xfer_safe
 
 end Uds.Props.C04
